@@ -174,6 +174,24 @@ func (f failure) what() string {
 	return "model and implementation disagree"
 }
 
+// inflightDir: when set, every worker records the case it is about to run there, so that after a
+// crash of the whole process (a fatal error inside the code under test cannot be recovered) the
+// orchestrator can replay the cases that were in flight one by one and name the failing input.
+var inflightDir string
+
+func noteInflight(w int, c any) {
+	if inflightDir == "" {
+		return
+	}
+	b, err := json.Marshal(map[string]any{"case": caseJSON(c)})
+	if err == nil {
+		f := filepath.Join(inflightDir, fmt.Sprintf("inflight-%d.json", w))
+		if os.WriteFile(f+".tmp", b, 0o644) == nil {
+			os.Rename(f+".tmp", f)
+		}
+	}
+}
+
 type options struct {
 	tier      string
 	seed      int64
@@ -187,6 +205,7 @@ func runAll(p *Prop, cases []any) []Result {
 	res := make([]Result, len(cases))
 	if p.Serial {
 		for i, c := range cases {
+			noteInflight(0, c)
 			res[i] = p.Run(c)
 		}
 		return res
@@ -196,12 +215,13 @@ func runAll(p *Prop, cases []any) []Result {
 	ch := make(chan int, 256)
 	for w := 0; w < nw; w++ {
 		wg.Add(1)
-		go func() {
+		go func(w int) {
 			defer wg.Done()
 			for i := range ch {
+				noteInflight(w, cases[i])
 				res[i] = p.Run(cases[i])
 			}
-		}()
+		}(w)
 	}
 	for i := range cases {
 		ch <- i
